@@ -557,7 +557,11 @@ def c06(tier, seed):
               "in the primary's pool), each with 1-4 blocking steps (eventual, cond, ABT_self_suspend, mutex, yield); when "
               "all are blocked the blocked counter must equal their number; then ABT_xstream_join / ABT_finalize is issued "
               "and an external thread wakes them 0.2-3 ms later (resuming a suspended ULT the moment BLOCKED is observable); "
-              "a sampler thread reads the counter continuously (never negative); forest case = a C01 program (xstream_join "
+              "a sampler thread reads the counter continuously (never negative); blockmig case = 2-4 streams with private "
+              "pools, 1-24 units with 1-5 blocking steps (eventual, cond, self_suspend, mutex, join, yield) of which 2/3 carry "
+              "a migration request to a random pool when they block and 1/3 get one while blocked: at every all-blocked "
+              "point each pool's counter must equal the number of blocked units associated with it, all counters are 0 at "
+              "the end and every stream can be joined; forest case = a C01 program (xstream_join "
               "and finalize complete pending unnamed units); distinct = distinct (variant, delay, configuration x scenario "
               "variant x size-class signature)")
     c.assumptions = ["the blocked counter is read white-box (p_pool->num_blocked) from the statically linked harness and via "
@@ -579,8 +583,17 @@ def c06(tier, seed):
         c.add(Run("h_units", "mon", ["--seed", s, "--mode", "forest", "--programs", 12 if q else 40, "--max-units", 500,
                                      "--delay", profiles[i % 4], "--watchdog", 60 if q else 400], weight=6,
                   tag="forest%d" % i))
+    # blocked counters under migration: requests pending when a unit blocks / issued while it is blocked
+    for i, s in enumerate(seeds(seed, 3 if q else 24, salt=4)):
+        c.add(Run("h_units", ("mon", "mon", "tsan")[i % 3] if q else ("mon", "mon", "mon", "asan", "tsan")[i % 5],
+                  ["--seed", s, "--mode", "blockmig", "--scenarios", 25 if q else 150, "--delay", profiles[i % 4],
+                   "--watchdog", 90 if q else 600], weight=4, tag="blockmig%d" % i))
     c.nontrivial = lambda r: True
-    c.required_counters = ["block_scenarios", "blocked_on_eventual", "blocked_on_cond", "self_suspended", "blocked_on_mutex",
+    c.required_counters = ["blockmig_exact_counter_checks", "migration_requests_pending_when_blocking",
+                           "migration_requests_issued_while_blocked", "units_resumed_in_another_pool",
+                           "blockmig_step_eventual", "blockmig_step_cond", "blockmig_step_self_suspend",
+                           "blockmig_step_mutex", "blockmig_step_join",
+                           "block_scenarios", "blocked_on_eventual", "blocked_on_cond", "self_suspended", "blocked_on_mutex",
                            "xstream_join_issued_with_blocked_units", "finalize_issued_with_blocked_units",
                            "blocked_counter_samples", "blocked_counter_exact_checks", "stacked_scheduler_variants",
                            "units_checked_at_xstream_join"]
